@@ -159,7 +159,7 @@ type PolicySpec struct {
 	Factor       float32 `json:"factor,omitempty"`
 	DelayMin     D       `json:"delay_min,omitempty"`
 	DelayMax     D       `json:"delay_max,omitempty"`
-	DelayFn      []D     `json:"delay_fn,omitempty"` // values returned by a delay function per call (cyclic); -1 falls through
+	DelayFn      []D     `json:"delay_fn,omitempty"`       // values returned by a delay function per call (cyclic); -1 falls through
 	DelayFnTakes D       `json:"delay_fn_takes,omitempty"` // (fake) time the delay function itself spends before returning
 	Jitter       D       `json:"jitter,omitempty"`
 	JitterFactor float32 `json:"jitter_factor,omitempty"`
